@@ -7,7 +7,8 @@ from .. import renderh as R
 class PyvisLeg(R.RenderLeg):
     name = "pyvis"
     rule = ("state import: random universes inside a surrounding graph (self-loops, parallel edges, mixed directed / undirected / "
-            "other classes, links leaving the universe, vertices carrying unrelated attributes incl. a stale `__make_pyvis_net_i`), "
+            "other classes, links leaving the universe, vertices carrying unrelated attributes incl. a stale `__make_pyvis_net_i`; in 2 of 5 cases "
+            "the VSub vertices of the finished graph - members and outsiders - compare EQUAL to one another without being identical), "
             "make_pyvis_net with and without rvfunc and pyvis_render_customizable; nodes, labels and the edge list "
             "(from, to, arrows) compared with the model; oracle = the statement; non-trivial = a self-loop or parallel edge inside")
     quick_n = 200
@@ -16,7 +17,21 @@ class PyvisLeg(R.RenderLeg):
     def queries_for(self, rng, u):
         return [["PYVIS", u, True], ["PYVIS", u, False], ["PYVIS", u, True, True]]
 
+    def generate(self, rng, n):
+        for case in super().generate(rng, n):
+            case["twins"] = rng.random() < 0.4      # every VSub vertex of the finished graph becomes value-equal to the others
+            if case["twins"]:
+                case.pop("ops2", None)              # no structure edits once twins exist: Universe.remove_vertex uses ==
+            yield case
+
     def decorate(self, w, case):
+        if case.get("twins"):
+            # vertices that compare EQUAL without being identical (members and outsiders alike): the exporter names
+            # vertices by identity; a look-alike outside the universe is no member, an equal member is another node
+            for o in w.objs:
+                if type(o) is H.VSub:
+                    o.__class__ = H.TwinV
+                    o.twin_key = 1
         # vertices (members and outsiders alike) may carry unrelated attributes, including one that happens to be
         # named like the exporter's former temporary index
         u = w.objs[case["queries"][0][1]]
